@@ -201,6 +201,62 @@ Theorem bare_multidim_value_is_checked_refuted : (* int q = 0; q = m[1][1];  /  
 Proof. exact bare_multidim_value_is_checked_refuted_l. Qed.
 Print Assumptions bare_multidim_value_is_checked_refuted.
 
+(* ---------------------------------------------------------------- the typed store entry point *)
+(* VariableManager::assign_variable range-checks against the declared type of the TARGET whatever type hint its caller
+   passes - `x = c ? a : b;` passes the inferred type of the selected branch, a multiple declaration the declared type, plain
+   assignments none: for every hint (other than TYPE_POINTER) whose resolved type is not bool, every target type and every value
+   the store is the demanded conversion. (The seeded change C04-1 made the check follow the hint.) *)
+Theorem assign_variable_checks_target_type : forall h t v,
+  h <> HPointer -> resolved_type h t <> TBool -> mech_assign_variable h t v = coerce t v.
+Proof. exact assign_variable_refines_l. Qed.
+Print Assumptions assign_variable_checks_target_type.
+
+Theorem ternary_assignment_is_checked : forall b t v, b <> TBool -> mech_store (PAssignHint (HTy b)) t v = coerce t v.
+Proof. exact ternary_assignment_is_checked_l. Qed.
+Print Assumptions ternary_assignment_is_checked.
+
+(* `x = c ? a : b;` and `T a = .., x = c ? a : b;` with any non-bool hint; `x = f(..);` and `const T g = c;` (no hint) *)
+Theorem hinted_paths_refine_spec :
+  (forall h p, In p (hinted_paths h) -> h <> HPointer -> forall t v, resolved_type h t <> TBool -> mech_store p t v = coerce t v) /\
+  (forall p, In p unhinted_paths -> forall t v, base t <> TBool -> mech_store p t v = coerce t v).
+Proof. split; [exact hinted_paths_refine_l|exact unhinted_paths_refine_l]. Qed.
+Print Assumptions hinted_paths_refine_spec.
+
+(* finding C04-ternary-assign-bool-branch: with a bool-inferred branch every admitted value other than 0 and 1 is not stored
+   exactly (it is normalised to 1 before the store) *)
+Theorem assign_variable_bool_hint_refuted : forall t v,
+  v <> 0 -> v <> 1 -> in_range t v = true -> (uns t = true -> 0 <= v) ->
+  coerce t v = Val v /\ mech_assign_variable (HTy TBool) t v <> Val v.
+Proof. exact assign_variable_bool_hint_refuted_l. Qed.
+Print Assumptions assign_variable_bool_hint_refuted.
+
+Theorem ternary_assign_bool_branch_refuted :   (* long u; u = c ? ~(5 == 3) : 0;  stores 1 *)
+  mech_store (PAssignHint (HTy TBool)) {| base := TLong; uns := false |} (-1) = Val 1 /\ coerce {| base := TLong; uns := false |} (-1) = Val (-1) /\
+  mech_store (PAssignHint (HTy TBool)) utiny (-2) = Val 1 /\ coerce utiny (-2) = Val 0 /\
+  mech_store (PAssignHint (HTy TBool)) tiny 2 = Val 1 /\ mech_store (PDeclMulti (HTy TBool)) tiny (-1) = Val 1.
+Proof. exact ternary_assign_bool_branch_refuted_l. Qed.
+Print Assumptions ternary_assign_bool_branch_refuted.
+
+Theorem typedef_ternary_init_is_checked_refuted :   (* typedef tiny T8; T8 t = c ? 128 : 0;  keeps 128; every other typedef initialiser is checked *)
+  mech_store PDeclTypedefTernary tiny 128 = Val 128 /\ coerce tiny 128 = Fail ERange /\
+  mech_store PDeclTypedefTernary tiny (-129) = Val (-129) /\ (forall t v, mech_store PDeclTypedef t v = coerce t v).
+Proof. exact typedef_ternary_init_is_checked_refuted_l. Qed.
+Print Assumptions typedef_ternary_init_is_checked_refuted.
+
+Theorem static_assignment_keeps_unsigned_refuted :  (* static unsigned tiny s; s = 200 is an error, s = -1 keeps -1; signed statics are as demanded *)
+  mech_store PStaticAssign utiny 200 = Fail ERange /\ coerce utiny 200 = Val 200 /\
+  mech_store PStaticAssign utiny (-1) = Val (-1) /\ coerce utiny (-1) = Val 0 /\
+  (forall t v, uns t = false -> mech_store PStaticAssign t v = coerce t v).
+Proof. exact static_assignment_keeps_unsigned_refuted_l. Qed.
+Print Assumptions static_assignment_keeps_unsigned_refuted.
+
+Theorem whole_array_store_is_checked_refuted :  (* tiny[3] a; a = [1,300,3] reads 44; 2-D keeps 300; a = b (long[3] b) keeps 300 *)
+  mech_store PArrLitAssign1 tiny 300 = Val 44 /\ mech_store PArrLitAssignN tiny 300 = Val 300 /\ mech_store PArrCopy tiny 300 = Val 300 /\
+  coerce tiny 300 = Fail ERange /\ mech_store PArrLitAssign1 utiny (-5) = Val 0 /\ mech_store PElem1Global utiny (-1) = Val (-1) /\
+  mech_store PElem1Global utiny 200 = Fail ERange.
+Proof. exact whole_array_store_is_checked_refuted_l. Qed.
+Print Assumptions whole_array_store_is_checked_refuted.
+
 (* ---------------------------------------------------------------- non-vacuity *)
 Example sample_store :
   let p := {| pglobals := [ {| gcst := false; gty := {| base := TShort; uns := true |}; gname := 9%nat; gdims := []; ginit := [-4] |} ];
